@@ -1,6 +1,7 @@
 package main
 
 import (
+	"encoding/json"
 	"fmt"
 	"os"
 	"strings"
@@ -14,6 +15,8 @@ func main() {
 	switch os.Args[1] {
 	case "check":
 		os.Exit(cmdCheck(os.Args[2:]))
+	case "replay":
+		os.Exit(cmdReplay(os.Args[2:]))
 	case "modset":
 		os.Exit(cmdModset(os.Args[2:]))
 	default:
@@ -79,4 +82,53 @@ func cmdModset(args []string) int {
 		}
 	}
 	return 0
+}
+
+// cmdReplay re-runs the generated test of a replay file against /repo.
+func cmdReplay(args []string) int {
+	if len(args) < 1 {
+		fmt.Fprintln(os.Stderr, "usage: govc replay <replay.json>")
+		return 2
+	}
+	data, err := os.ReadFile(args[0])
+	if err != nil {
+		fmt.Fprintln(os.Stderr, err)
+		return 2
+	}
+	var rec map[string]interface{}
+	if err := json.Unmarshal(data, &rec); err != nil {
+		fmt.Fprintln(os.Stderr, err)
+		return 2
+	}
+	fmt.Printf("obligation: %v\nclause: %v\nverdict recorded: %v\n", rec["obligation"], rec["clause"], rec["verdict"])
+	src, _ := rec["replay_test_source"].(string)
+	if src == "" {
+		fmt.Println("no replayable test in this file (solver output only):")
+		fmt.Println(rec["solver_output"])
+		return 1
+	}
+	ld, err := Load("/repo", []string{"./..."})
+	if err != nil {
+		fmt.Fprintln(os.Stderr, err)
+		return 2
+	}
+	eng := newEngine(ld)
+	sv, err := newSolver(20)
+	if err != nil {
+		return 2
+	}
+	defer sv.cleanup()
+	fnName, _ := rec["function"].(string)
+	for _, b := range ld.Blocks {
+		if b.QualName() == fnName {
+			out, _ := eng.runReplay(sv, b.Target, src)
+			fmt.Println(out)
+			if strings.Contains(out, "GOVC-REPLAY: CONFIRMED") {
+				return 1
+			}
+			return 0
+		}
+	}
+	fmt.Println("function not found:", fnName)
+	return 2
 }
